@@ -1950,11 +1950,15 @@ def replay(data):
         got = o['direct'] if st == 'ok' else None
         print('replay corpus', it['name'], 'expected', it['expect'], 'got', got if st == 'ok' else o)
         return 1 if st != 'ok' or any(got.get(k) != v for k, v in it['expect'].items()) else 0
-    if stream.startswith('cascade') and 'case' in d:
+    if (stream.startswith('cascade') or stream == 'import-dag') and 'case' in d:
         (st, o), = common.run_impl('impl_c06', 'render_styles', [d['case']])
         if st != 'ok':
             print('replay:', st, o)
             return 1
+        if 'expected_fetches' in d:
+            print('replay: the text demands the fetches %s\n        the fetcher saw          %s' % (
+                [u.split('/')[-1] for u in d['expected_fetches']], [u.split('/')[-1] for u in o['fetched']]))
+            return 1 if o['fetched'] != d['expected_fetches'] else 0
         df = d.get('diff')
         if not df:
             print('replay: no recorded difference;', json.dumps(o)[:800])
